@@ -136,8 +136,13 @@ class Rule_LT09(BaseRule):
                 sp.is_type("comment"),
                 start_seg=selects.get(),
                 stop_seg=newlines.get(),
+                # NOTE: A select modifier (e.g. DISTINCT) may stand between
+                # the SELECT keyword and the comment on the same line.
                 loop_while=sp.or_(
-                    sp.is_type("comment"), sp.is_type("whitespace"), sp.is_meta()
+                    sp.is_type("comment"),
+                    sp.is_type("whitespace"),
+                    sp.is_type("select_clause_modifier"),
+                    sp.is_meta(),
                 ),
             )
             if comment_after_select:
